@@ -114,14 +114,20 @@ type env struct {
 
 	// kind=m: several anonymous run services alive at once
 	svcs map[int]*msvc
+	mlog []execRec // executions on the services since the last op
 }
 
 type msvc struct {
 	id      int
+	name    string
 	rs      *runservice.RunService
+	probe   chan int
 	gid     int64
 	next    int
+	started bool
 	stopped bool
+	gate    chan struct{} // non-nil while the loop is parked in a blocking closure
+	pending int           // closures accepted but not yet runnable (service not started / loop parked)
 }
 
 var caseNo int
@@ -386,6 +392,10 @@ func (e *env) cleanup() {
 		return
 	}
 	for _, v := range e.svcs {
+		if v.gate != nil {
+			close(v.gate)
+			v.gate = nil
+		}
 		if !v.stopped {
 			v.stopped = true
 			hx.Guard(func() string { v.rs.Stop(); return "" })
@@ -804,47 +814,116 @@ func (e *env) svcLabel(g int64) string {
 	return "o"
 }
 
+func (e *env) takeMlog() string {
+	e.mu.Lock()
+	defer e.mu.Unlock()
+	if len(e.mlog) == 0 {
+		return "-"
+	}
+	parts := make([]string, len(e.mlog))
+	for i, x := range e.mlog {
+		parts[i] = fmt.Sprintf("%d.%d@%s", x.p, x.seq, e.svcLabel(x.g))
+	}
+	e.mlog = nil
+	return strings.Join(parts, ",")
+}
+
 func (e *env) execMulti(ws []string) string {
 	switch ws[0] {
-	case "svc": // runservice.NewRunService("") + Start, as actorex's NewScheDisp("") does
+	case "svc": // runservice.NewRunService(name) [+ Start]; name "" as actorex's NewScheDisp("") does
 		if _, ok := hx.KV(ws, "id"); !ok {
 			return "bad-op"
 		}
 		id := hx.KVInt(ws, "id")
+		name, _ := hx.KV(ws, "name")
 		if e.svcs[id] != nil {
 			return "bad-op"
 		}
-		v := &msvc{id: id}
+		if name != "" {
+			for _, u := range e.svcs {
+				if u.name == name && !u.stopped {
+					return "bad-op" // same name while its holder lives = same scheduler by design: two consumers
+				}
+			}
+		}
+		v := &msvc{id: id, name: name}
+		start := true
+		if x, ok := hx.KV(ws, "start"); ok && x == "0" {
+			start = false
+		}
 		r := hx.Guard(func() string {
-			v.rs = runservice.NewRunService("")
-			probe := make(chan int, 1)
-			v.rs.GetSelector().AddSelector("verifprobe", sche.NewFuncSelector(reflect.ValueOf(probe),
+			real := name
+			if name != "" {
+				real = fmt.Sprintf("c15m-%d-%s", caseNo, name)
+			}
+			v.rs = runservice.NewRunService(real)
+			v.probe = make(chan int, 1)
+			v.rs.GetSelector().AddSelector("verifprobe", sche.NewFuncSelector(reflect.ValueOf(v.probe),
 				func(reflect.Value, bool) {
 					e.mu.Lock()
 					v.gid = goid()
 					e.mu.Unlock()
 				}))
-			v.rs.Start()
-			probe <- 1
+			if start {
+				v.started = true
+				v.rs.Start()
+				v.probe <- 1
+			}
 			return "ok"
 		})
 		e.svcs[id] = v
 		synctest.Wait()
 		return r
-	case "mpost", "mchain", "mstop":
+	case "mpost", "mchain", "mstop", "mstart", "mblock", "munblock":
 		v := e.svcs[hx.KVInt(ws, "svc")]
 		if _, ok := hx.KV(ws, "svc"); !ok || v == nil || v.rs == nil {
 			return "bad-op"
 		}
 		switch ws[0] {
 		case "mstop":
-			if v.stopped {
+			// with closures queued behind a parked loop the number drained after Stop is not determined: refused
+			if v.stopped || (v.gate != nil && v.pending > 0) {
 				return "bad-op"
 			}
 			v.stopped = true
 			r := hx.Guard(func() string { v.rs.Stop(); return "ok" })
 			synctest.Wait()
 			return r
+		case "mstart":
+			if v.started || v.stopped {
+				return "bad-op"
+			}
+			v.started = true
+			v.pending = 0
+			r := hx.Guard(func() string { v.rs.Start(); v.probe <- 1; return "" })
+			synctest.Wait()
+			if r != "" {
+				return r
+			}
+			return "exec=" + e.takeMlog()
+		case "mblock": // park the service's loop in a closure
+			if !v.started || v.stopped || v.gate != nil {
+				return "bad-op"
+			}
+			gate := make(chan struct{})
+			v.gate = gate
+			r := hx.Guard(func() string {
+				if v.rs.GetScheduler().Post(func() { <-gate }) == nil {
+					return "refused"
+				}
+				return "ok"
+			})
+			synctest.Wait()
+			return r
+		case "munblock":
+			if v.gate == nil {
+				return "bad-op"
+			}
+			close(v.gate)
+			v.gate = nil
+			v.pending = 0
+			synctest.Wait()
+			return "exec=" + e.takeMlog()
 		case "mpost":
 			if _, ok := hx.KV(ws, "n"); !ok {
 				return "bad-op"
@@ -854,7 +933,12 @@ func (e *env) execMulti(ws []string) string {
 			if _, ok := hx.KV(ws, "x"); ok {
 				px = hx.KVInt(ws, "x")
 			}
-			var recs []execRec
+			if !v.stopped && (!v.started || v.gate != nil) {
+				if v.pending+n > 900 {
+					return "bad-op" // stay clear of the channel capacity
+				}
+				v.pending += n
+			}
 			okc, nilc := 0, 0
 			r := hx.Guard(func() string {
 				for i := 0; i < n; i++ {
@@ -863,7 +947,7 @@ func (e *env) execMulti(ws []string) string {
 					t := v.rs.GetScheduler().Post(func() {
 						g := goid()
 						e.mu.Lock()
-						recs = append(recs, execRec{v.id, seq, g})
+						e.mlog = append(e.mlog, execRec{v.id, seq, g})
 						e.mu.Unlock()
 						if panics {
 							panic("C15 harness: this closure panics")
@@ -881,19 +965,12 @@ func (e *env) execMulti(ws []string) string {
 			if r != "" {
 				return r
 			}
-			e.mu.Lock()
-			defer e.mu.Unlock()
-			ex := "-"
-			if len(recs) > 0 {
-				parts := make([]string, len(recs))
-				for i, x := range recs {
-					parts[i] = fmt.Sprintf("%d.%d@%s", x.p, x.seq, e.svcLabel(x.g))
-				}
-				ex = strings.Join(parts, ",")
-			}
-			return fmt.Sprintf("exec=%s ret=%d:%d", ex, okc, nilc)
+			return fmt.Sprintf("exec=%s ret=%d:%d", e.takeMlog(), okc, nilc)
 		case "mchain":
 			if _, ok := hx.KV(ws, "n"); !ok {
+				return "bad-op"
+			}
+			if !v.stopped && (!v.started || v.gate != nil) {
 				return "bad-op"
 			}
 			n := hx.KVInt(ws, "n")
@@ -935,30 +1012,69 @@ func (e *env) execMulti(ws []string) string {
 	return "bad-op"
 }
 
-// multiCase: several anonymous run services alive at once, stopped and created in any order.
+// multiCase: several run services (anonymous, or with explicit names that are reused after a stop) alive at once;
+// started late or never, stopped and re-created in any order, their loops parked in a closure now and then.
 func (g *gen) multiCase() {
 	h := g.h
 	R := h.R
 	g.run("reset kind=m")
-	var alive, all []int
+	type svc struct {
+		id                        int
+		name                      string
+		started, stopped, blocked bool
+	}
+	var all []*svc
 	next := 1
+	names := []string{"a", "b", "c"}
 	create := func() {
-		g.run(fmt.Sprintf("svc id=%d", next))
-		alive = append(alive, next)
-		all = append(all, next)
+		name := ""
+		if R.Intn(2) == 0 {
+			name = names[R.Intn(len(names))]
+			for _, u := range all {
+				if u.name == name && !u.stopped {
+					name = "" // its holder lives: fall back to an anonymous one
+				}
+			}
+			if name != "" {
+				for _, u := range all {
+					if u.name == name {
+						h.Count("m.name-reused-after-stop")
+						break
+					}
+				}
+			}
+		}
+		v := &svc{id: next, name: name, started: true}
+		op := fmt.Sprintf("svc id=%d", next)
+		if name != "" {
+			op += " name=" + name
+		}
+		if R.Intn(5) == 0 {
+			v.started = false
+			op += " start=0"
+			h.Count("m.created-unstarted")
+		}
+		for _, u := range all {
+			if u.stopped {
+				h.Count("m.created-after-stop")
+				break
+			}
+		}
+		g.run(op)
+		all = append(all, v)
 		next++
 	}
 	create()
 	if R.Intn(4) > 0 {
 		create()
 	}
-	steps := 4 + R.Intn(10)
+	steps := 5 + R.Intn(12)
 	for i := 0; i < steps; i++ {
-		switch x := R.Intn(10); {
+		v := all[R.Intn(len(all))]
+		switch x := R.Intn(14); {
 		case x < 5:
-			k := all[R.Intn(len(all))]
 			n := 1 + R.Intn(6)
-			op := fmt.Sprintf("mpost svc=%d n=%d", k, n)
+			op := fmt.Sprintf("mpost svc=%d n=%d", v.id, n)
 			if R.Intn(4) == 0 {
 				op += fmt.Sprintf(" x=%d", R.Intn(n))
 				h.Count("m.post.panicking")
@@ -966,22 +1082,54 @@ func (g *gen) multiCase() {
 			h.Count("m.post")
 			g.run(op)
 		case x < 7:
-			k := all[R.Intn(len(all))]
 			h.Count("m.chain")
-			g.run(fmt.Sprintf("mchain svc=%d n=%d", k, R.Intn(5)))
-		case x < 8 && len(alive) > 0:
-			j := R.Intn(len(alive))
-			k := alive[j]
-			alive = append(alive[:j], alive[j+1:]...)
-			h.Count("m.stop")
-			g.run(fmt.Sprintf("mstop svc=%d", k))
-		default:
-			if len(all) < 6 {
-				if len(alive) < len(all) {
-					h.Count("m.created-after-stop")
+			g.run(fmt.Sprintf("mchain svc=%d n=%d", v.id, R.Intn(5)))
+		case x < 9:
+			if !v.stopped {
+				v.stopped = true
+				h.Count("m.stop")
+				if !v.started {
+					h.Count("m.stop-without-start")
 				}
+				if v.blocked {
+					h.Count("m.stop-while-loop-parked")
+				}
+				if g.run(fmt.Sprintf("mstop svc=%d", v.id)) == "bad-op" {
+					v.stopped = false
+				} else if v.name != "" && R.Intn(2) == 0 && len(all) < 8 {
+					// immediately re-create a service of the same name
+					u := &svc{id: next, name: v.name, started: true}
+					h.Count("m.name-reused-after-stop")
+					g.run(fmt.Sprintf("svc id=%d name=%s", next, v.name))
+					all = append(all, u)
+					next++
+					g.run(fmt.Sprintf("mpost svc=%d n=%d", u.id, 1+R.Intn(3)))
+				}
+			}
+		case x < 10:
+			if !v.started && !v.stopped {
+				v.started = true
+				h.Count("m.start-late")
+				g.run(fmt.Sprintf("mstart svc=%d", v.id))
+			}
+		case x < 12:
+			if v.blocked {
+				v.blocked = false
+				g.run(fmt.Sprintf("munblock svc=%d", v.id))
+			} else if v.started && !v.stopped {
+				v.blocked = true
+				h.Count("m.loop-parked")
+				g.run(fmt.Sprintf("mblock svc=%d", v.id))
+			}
+		default:
+			if len(all) < 8 {
 				create()
 			}
+		}
+	}
+	for _, v := range all {
+		if v.blocked {
+			g.run(fmt.Sprintf("munblock svc=%d", v.id))
 		}
 	}
 	h.Count(fmt.Sprintf("m.services.%d", len(all)))
@@ -1408,6 +1556,35 @@ func (g *gen) sweep() {
 	g.run("svc id=4")
 	g.run("mpost svc=4 n=2")
 	g.h.Count("m.sweep")
+	// explicit names reused after a stop: stop without start; stop while the loop is parked in a closure and an
+	// immediate re-creation under the same name; late start with closures already queued
+	g.run("reset kind=m")
+	g.run("svc id=1 name=a start=0")
+	g.run("mpost svc=1 n=2")
+	g.run("mstop svc=1")
+	g.run("svc id=2 name=a")
+	g.run("mpost svc=2 n=3 x=1")
+	g.run("mchain svc=2 n=2")
+	g.run("mblock svc=2")
+	g.run("mstop svc=2")
+	g.run("svc id=3 name=a")
+	g.run("mpost svc=3 n=4")
+	g.run("mchain svc=3 n=3")
+	g.run("munblock svc=2")
+	g.run("mpost svc=3 n=2")
+	g.run("svc id=4 name=b start=0")
+	g.run("mpost svc=4 n=3")
+	g.run("mstart svc=4")
+	g.run("mblock svc=4")
+	g.run("mpost svc=4 n=2 x=0")
+	g.run("munblock svc=4")
+	g.run("mstop svc=4")
+	g.run("mstop svc=3")
+	g.run("svc id=5 name=a")
+	g.run("svc id=6 name=b")
+	g.run("mpost svc=5 n=2")
+	g.run("mpost svc=6 n=2")
+	g.h.Count("m.sweep.names")
 	// re-entrant posts: the consumer, parked in a closure, posts 2..8 closures to its own nearly full queue (within the
 	// free slots - beyond them it would deadlock on its own channel); the consumer is then just one more poster
 	for _, cons := range []string{"h", "r"} {
